@@ -14,7 +14,7 @@ FUNCTIONS = {
 }
 FUNCTIONS['kripke'] = ['Kripke.__init__', 'Kripke.labels', 'Kripke.states', 'Kripke.next', 'Kripke.transitions_iter',
                        'Kripke.transitions', 'Kripke.clone', 'Kripke.get_substructure']
-FUNCTIONS['ctl'] = ['_checkAtomicProposition', '_checkNot', '_checkEX', '_checkOr', '_checkStateFormula', '_checkEU']
+FUNCTIONS['ctl'] = ['_checkAtomicProposition', '_checkNot', '_checkEX', '_checkOr', '_checkStateFormula', '_checkEU', 'modelcheck']
 FUNCTIONS['rewrite'] = ['LNot'] + ['%s.get_equivalent_restricted_formula' % c for c in
                                    ('AtomicProposition', 'Not', 'A', 'E', 'X', 'F', 'G', 'Or', 'And', 'Imply', 'U', 'R')]
 PROPERTY_FUNCTIONS = {
